@@ -196,6 +196,8 @@ class VTask(Task):
         ref = stage.ref_id
         if ref not in w.refs:
             ref = "built:" + stage.name  # a synthetic stage created at plan time: its ref_id is a fresh ULID, its name is stable
+        if stage.execution is not None and stage.execution.id != w.workflow_id:
+            ref = "twin:" + ref  # a task of the second live execution in the same database
         nth = w.ledger.count(ref, tname)  # executions of this task so far (harness memory)
         entry = w.ledger.add(
             ref=ref,
@@ -554,6 +556,14 @@ class World:
             self._store_noise(wf)
         self.workflow_id = wf.id
         self.refs = {s.ref_id: s.id for s in wf.stages}
+        self.store.store(wf)
+        self.orchestrator.start(wf)
+        return wf
+
+    def submit_twin(self, wf: Workflow) -> Workflow:
+        """A second LIVE execution in the same database (same or another definition): its messages interleave with
+        those of the execution under test; nothing of it may leak into that one (and vice versa)."""
+        self.twin_id = wf.id
         self.store.store(wf)
         self.orchestrator.start(wf)
         return wf
@@ -1174,6 +1184,7 @@ WORKLOADS: dict[str, Callable[[], Workflow]] = {
     "mutex": wl_mutex,
     "choice": wl_choice,
     "choice_down": wl_choice_down,
+    "skip_mid": lambda: workflow([stage("a"), stage("b", ["a"], ctx={"stageEnabled": False}), stage("c", ["b"])]),
     "fwdjump_t2": lambda: wl_forward_jump(extra_task=True),
     "poll2_t2": lambda: wl_poll(2, then_ok=True),
     "diamond_j2": lambda: wl_diamond(join_tasks=2),
